@@ -752,6 +752,9 @@ func (s *c01Sum) pathAvoiding(f *c01Fn, b0 *cfg.Block, i0 int, target func(b *cf
 
 // c01IsNormalExit: a block without successors that ends the function normally (return or fall off the end), not by panic.
 func c01IsNormalExit(f *c01Fn, b *cfg.Block) bool {
+	if b.Kind == cfg.KindSelectAfterCase {
+		return false // go/cfg's "no case of a select without default was taken": the goroutine blocks there
+	}
 	if len(b.Nodes) == 0 {
 		return true
 	}
